@@ -321,6 +321,8 @@ func runProperty(p *vc.Prog, id string, claims *PropClaim, known []KnownFinding,
 			r := oblResult{o, smt.Result{Status: status, Solver: ep.Argv[0], Seconds: time.Since(t0).Seconds(), Output: output}}
 			out.obls = append(out.obls, r)
 			out.lemmas = append(out.lemmas, "external:"+ep.Name)
+			present["lemma external:"+ep.Name] = true
+			generated[o.Func+"::"+clauseName(o.Name)] = true
 			if status == "unsat" {
 				out.byBackend[ep.Argv[0]]++
 			} else {
